@@ -469,6 +469,7 @@ func streamUpload(g *core.G) {
 
 func init() {
 	tb := append(append([]string{}, leanTB...), "Model/Upload.lean: the plans of Copy/Move/Remove and internal.Copy over an abstract file system (hand transliteration, differentially tested on a real temporary directory tree)",
+		"Base/Path.lean (path.Clean / Join, filepath.Dir / Base) and Model/UploadPaths.lean (which paths the operations build from Filename, destination and listed names): hand transliterations; the primitives are tied by the base stream, the composition is observed through where files appear (upload stream); the paths handed to the kernel are not traced",
 		"the kernel's open/create/rename/unlink semantics as summarised in the model's primitive steps (parameter; crash durability and rename atomicity are the platform's)")
 	core.Register(&core.Property{
 		ID: "C20", PropsModule: "GoDebian.Props.C20",
